@@ -162,7 +162,9 @@ func genDurStr(t *rapid.T) string {
 		if hasS {
 			b.WriteString(num("s", 100000))
 			if rapid.Bool().Draw(t, "hasFrac") {
-				b.WriteString("." + rapid.StringMatching(`[0-9]{1,12}`).Draw(t, "frac"))
+				// any number of fraction digits is in the lexical space; digits beyond the ninth are below the resolution
+				nd := rapid.SampledFrom([]int{1, 2, 3, 6, 9, 10, 12, 18, 19, 20, 21, 30, 45}).Draw(t, "fraclen")
+				b.WriteString("." + rapid.StringMatching(fmt.Sprintf(`[0-9]{%d}`, nd)).Draw(t, "frac"))
 			}
 			b.WriteString("S")
 		}
@@ -1411,6 +1413,18 @@ func enumDurStrings(_ string, emit func(Case)) {
 		for _, tmpl := range []string{"PT%sS", "PT%sM", "PT%sH", "P%sD", "PT%s.5S", "PT1M%sS", "-PT%sS", "P%sDT%sH"} {
 			s := strings.ReplaceAll(tmpl, "%s", n)
 			emit(Case{Kind: "durstr", Str: s})
+		}
+	}
+	// fractions of every length up to 45 digits, all nines / a leading one / all zeros (digits beyond the ninth
+	// are below the resolution and must not matter)
+	for nd := 1; nd <= 45; nd++ {
+		for _, d := range []string{"9", "0", "1"} {
+			f := strings.Repeat(d, nd)
+			if d == "1" {
+				f = "1" + strings.Repeat("0", nd-1)
+			}
+			emit(Case{Kind: "durstr", Str: "PT1." + f + "S"})
+			emit(Case{Kind: "durstr", Str: "-P1DT0." + f + "S"})
 		}
 	}
 }
